@@ -24,6 +24,7 @@ def step (s : St) (toks : List String) : St × List String :=
   | ["SCN", _] => (s, ["scenario"])
   | ["M"] => (s, [marshalV s.doc.root.d 64 [] rootId])
   | ["MC"] => (s, [marshalV (ensureClone s.doc).d 64 [] rootId])
+  | ["F"] => (s, [s!"updating={s.doc.updating}"])
   | ["L"] => (s, [s!"locals={s.doc.locals.length} seq={s.doc.seq}"])
   | _ => (s, ["bad-op"])
 
